@@ -49,6 +49,29 @@ def run(chk, replay=None):
             elif pi != sin:
                 chk.violate('output shape differs from input shape', {'cfg': cfg.describe(), 'input': l.decode('utf-8', 'replace'), 'output': io.decode('utf-8', 'replace')}, tags=['shape'])
         chk.streams.append({'stream': 'shape projection model vs implementation', 'cfg': cfg.describe(), 'cases': len(lines)})
+    # through the CLI (reader, writer and flag wiring included): every object line without duplicate keys comes out as one line of the same shape
+    import subprocess, tempfile, os
+    sel = [(l, i) for (l, i) in all_cases if i['kind'] in ('corpus', 'anyjson', 'fixture')][:500] + [(l, i) for (l, i) in all_cases if i['kind'] == 'grammar'][:150]
+    sel = [(l, i) for (l, i) in sel if b'\n' not in l and len(l) < 60000]
+    with tempfile.TemporaryDirectory() as d:
+        f = os.path.join(d, 'in.log'); open(f, 'wb').write(b'\n'.join(l for l, _ in sel) + b'\n')
+        for flags in (['-n', '-b'], ['-r', 'X%d 100%', '-i']):
+            o = os.path.join(d, 'out.log')
+            p = subprocess.run([CLI, 'redact', f, '-o', o] + flags, stdin=subprocess.DEVNULL, capture_output=True)
+            outl = open(o, 'rb').read().split(b'\n')[:-1] if os.path.exists(o) else []
+            expect = []
+            for l, _ in sel:
+                tin = jtree.parse(l)
+                if tin is not None and jtree.kind(tin) == 'obj': expect.append((l, tin))
+            chk.count(len(expect))
+            if p.returncode != 0 or len(outl) != len(expect):
+                chk.violate('CLI: number of emitted lines differs from the number of object lines', {'flags': flags, 'rc': p.returncode, 'emitted': len(outl), 'object_lines': len(expect), 'stderr': p.stderr.decode('utf-8', 'replace')[-200:]}, tags=['cli', 'count'])
+            else:
+                for (l, tin), ol in zip(expect, outl):
+                    if jtree.has_dup_keys(tin): continue
+                    if shape_proj(ol) != jtree.shape(tin):
+                        chk.violate('CLI: emitted line is not one JSON object of the input shape', {'flags': flags, 'input': l.decode('utf-8', 'replace')[:1500], 'output': ol.decode('utf-8', 'replace')[:1500]}, tags=['cli', 'shape']); break
+    chk.streams.append({'stream': 'CLI file -> file, shape of every emitted line', 'lines': len(sel)})
     chk.sample({'cfg': cfgs[1].describe(), 'input': lines[len(streams.fixture_lines()) + 1].decode('utf-8', 'replace')[:600]})
     chk.sample({'input': lines[-1].decode('utf-8', 'replace')[:400]})
     chk.assumptions += ["tree-level theorem; the text-level step (printer emits one physical line that parses back) is validated by the byte-level correspondence stream of this run",
